@@ -13,6 +13,23 @@ claim("C18", "property-based differential testing against math/big (rapid, biase
   "math/big is trusted; truncating division conventions of Int.Quo/Dec.QuoInt assumed; known finding C18/dec/quo-36-digit-double-rounding is excluded by its exact predicate and reported as KNOWN-FINDING",
   "DESIGN.md §4 C18")
 
+claim("C12", "model-based property testing of commit/reopen/LoadVersion histories (rapid stateful programs vs. snapshot-per-version model)", "exploration",
+  "Generated write/delete/commit/reopen histories over 1-4 IAVL stores and a transient store under every pruning policy shape are run on rootmulti; after every commit and reopen the version step, commit id and full content are compared with a snapshot-per-version model, and a fresh store must load exactly the versions the documented pruning rule retains (pruned/future => error).",
+  "MemDB back end (durability of the DB engine is trusted); retention model = documented pruning rule; lazy loading and StoreTypeDB mounts are outside the generated configurations",
+  "DESIGN.md §4 C12")
+claim("C13", "fault injection by crash-point enumeration over generated commit histories (instrumented DB, reopen-and-replay oracle)", "fault_enumeration",
+  "For generated histories every durable write unit of the interrupted commit(s) is used as a crash point (complete enumeration per interrupted commit): the surviving database must reopen at the old or new version with exactly that version's hash and content in all stores, replay must reproduce the uninterrupted hash, and retained versions must stay loadable.",
+  "atomic batch writes assumed; crash = process death between durable write units; two known findings (prune of the last flushed version when keepRecent=0; partial first commit) are excluded by their exact predicates and reported as KNOWN-FINDING",
+  "DESIGN.md §4 C13")
+claim("C15", "stateful model-based testing (rapid programs vs. stack-of-sorted-maps model) + concurrent histories checked for linearizability (porcupine) and under -race", "exploration",
+  "Generated programs of get/has/set/delete/iterators (drained and kept open across writes)/write/wrap/discard over nested cache wrappers on MemDB, IAVL, prefix and cache-multistore bases are compared step by step with an overlay model incl. parent-unchanged-until-Write and Write result; concurrent goroutine programs on one wrapper must be linearizable per key; the thorough tier runs under the race detector.",
+  "goroutine schedules are sampled, not enumerated; lower wrappers are only read while a higher one is alive; Write/discard with no iterator open",
+  "DESIGN.md §4 C15")
+claim("C16", "differential model-based testing of wrapper stacks (prefix map model, exact big-integer gas ledger, expected trace) with generated boundary prefixes and limits", "exploration",
+  "Generated stacks of prefix/gas/trace wrappers (optionally over a cache wrap) run generated programs; results, parent content outside the prefix, GasConsumed after every operation, the exact operation and kind of gas panic (limit chosen relative to the model's own total, or amounts near 2^64 on the meter directly) and the decoded trace lines are compared with the model.",
+  "gas charges as documented in store/gaskv and KVGasConfig; state after a gas panic is not asserted; trace lines exact only for a trace wrapper on top of the stack",
+  "DESIGN.md §4 C16")
+
 NOT_YET = "check not built yet in this revision (work in progress, see DESIGN.md Appendix C)"
 m = dict(version=1,
   setup_cmd="./verif.sh build",
